@@ -31,23 +31,10 @@ struct Scen {
 }
 
 fn fam_by_name(s: &str) -> Family {
-    match s {
-        "Exp1Off" => Family::Exp1Off,
-        "Exp2Off" => Family::Exp2Off,
-        "Exp3" => Family::Exp3,
-        "GaussDecayOff" => Family::GaussDecayOff,
-        "OLeary" => Family::OLeary,
-        o => panic!("family {}", o),
-    }
+    Family::from_json(&json!(s))
 }
 fn wk_by_name(s: &str) -> WKind {
-    match s {
-        "None" => WKind::None,
-        "Ramp" => WKind::Ramp,
-        "InvSigma" => WKind::InvSigma,
-        "Dyadic" => WKind::Dyadic,
-        o => panic!("wkind {}", o),
-    }
+    WKind::from_json(&json!(s))
 }
 fn scen_json(s: &Scen) -> Value {
     json!({"fam": s.fam.name(), "n": s.n, "s": s.s, "prov": s.prov.name(), "par": s.par, "w": format!("{:?}", s.w), "scalar": if s.f32_ {"f32"} else {"f64"}, "start": s.start, "precomputing": s.precomputing})
@@ -284,8 +271,13 @@ fn sweep<T: Sc>(ctx: &Ctx, sc: &Scen, depth: usize, only: Option<(Phase, Vec<usi
             jobs.push((Phase::History, h));
         }
     }
+    // C04 only needs the fits (fault at every model call of a whole fit): `--phases fit`
+    let fit_only = ctx.args.extra.get("phases").map(|p| p == "fit").unwrap_or(false);
+    if fit_only {
+        jobs.clear();
+    }
     jobs.push((Phase::Fit, vec![]));
-    if sc.s == 1 {
+    if sc.s == 1 && !fit_only {
         jobs.push((Phase::FitStats, vec![]));
     }
     if let Some((ph, h, k, mode, ofs)) = only {
@@ -335,6 +327,10 @@ fn report(ctx: &Ctx, sc: &Scen, ph: Phase, h: &[usize], k: u64, mode: FaultMode,
             s.violate(prop, sig, cj.clone(), detail.clone());
             if prop == "C03" {
                 s.violate("C09", sig, cj.clone(), detail.clone());
+            }
+            // "Ok exactly when the termination reason counts as successful" is a clause of C04
+            if sig == "ok-iff-successful" {
+                s.violate("C04", sig, cj.clone(), detail.clone());
             }
         }
         if k != u64::MAX && k % 7 == 3 && h.len() == 2 {
@@ -454,6 +450,12 @@ fn scenarios(thorough: bool) -> Vec<Scen> {
             }
         }
     }
+    // large parallel problems (the Jacobian has more than 2^15 entries): work-splitting thresholds of the parallel code
+    v.push(Scen { fam: Family::ExpN(4), n: 128, s: 70, prov: Prov::Hand, par: true, w: WKind::None, f32_: false, start: 1.04, precomputing: false });
+    if thorough {
+        v.push(Scen { fam: Family::ExpN(4), n: 8200, s: 1, prov: Prov::Hand, par: true, w: WKind::Ramp, f32_: false, start: 1.04, precomputing: false });
+        v.push(Scen { fam: Family::ExpN(4), n: 128, s: 70, prov: Prov::Hand, par: true, w: WKind::Ramp, f32_: true, start: 1.04, precomputing: false });
+    }
     v
 }
 
@@ -479,9 +481,12 @@ fn main() {
             }
             return;
         }
-        domain_fits::<f64>(&ctx, ctx.args.thorough());
-        if ctx.args.thorough() {
-            domain_fits::<f32>(&ctx, true);
+        let fit_only = ctx.args.extra.get("phases").map(|p| p == "fit").unwrap_or(false);
+        if !fit_only {
+            domain_fits::<f64>(&ctx, ctx.args.thorough());
+            if ctx.args.thorough() {
+                domain_fits::<f32>(&ctx, true);
+            }
         }
         for (i, sc) in scenarios(ctx.args.thorough()).iter().enumerate() {
             if !ctx.args.mine(i as u64) {
